@@ -46,6 +46,7 @@ macro_rules! program {
 
 pub mod c01;
 pub mod c02;
+pub mod c07;
 pub mod c08;
 pub mod c09;
 pub mod c10;
@@ -57,6 +58,7 @@ pub fn all() -> Vec<Prog> {
     let mut v = Vec::new();
     v.extend(c01::all());
     v.extend(c02::all());
+    v.extend(c07::all());
     v.extend(c08::all());
     v.extend(c09::all());
     v.extend(c10::all());
